@@ -17,7 +17,7 @@ import sigtree as st
 from common import correspond, frac_str, run_driver
 
 TRUSTED = [
-    'Lean 4.33.0 kernel; axioms of every theorem in Props/C14.lean within {propext, Classical.choice, Quot.sound}',
+    'Lean 4.33.0 kernel; axioms of every theorem in Props/C14*.lean within {propext, Classical.choice, Quot.sound}',
     'harness/props/c14.py, harness/sigtree.py (generators, exact reference derivative)',
     'Driver.lean / Drv/SigCalc.lean glue',
     'for signomial VALUES the implementation\'s floats are compared with the model\'s exact rationals at relative tolerance 1e-9 '
